@@ -3,6 +3,7 @@
 // config "<vcpus><mode><ring>:<submitter ops>|<submitter ops>"   mode: n = -1 (inline), t = 0 (thread per task), p = pool of 2
 //   an upper-case mode (N/T/P) adds one worker vCPU that entered through join_current_vcpu_into_workpool()
 //   submitters: photon threads on the harness vCPU (default) or a plain OS thread ('@').  ops: c<b> call()  a<b> async_call()
+//   i<k> thread_interrupt(submitter k) if it is still running (a stray EINTR landing on a caller blocked in call())
 //   task body b: n nop, y yield, z usleep(10us).   After all submitters are done the pool is destroyed (racing with async tasks).
 #include <photon/photon.h>
 #include <photon/thread/workerpool.h>
@@ -42,6 +43,7 @@ static void body(mvprog::PT& p) {
     for (size_t i = 0; i < p.ops.size(); i++) {
         if (p.ops[i] == 'p') { int n = pmc_choose(3, PMC_PROG, 0, "pad yields"); for (int k = 0; k < n; k++) thread_yield(); continue; }
         if (p.ops[i] == 'q') { if (pmc_choose(2, PMC_PROG, 0, "pad yield")) thread_yield(); continue; }
+        if (p.ops[i] == 'i') { int k = p.ops[++i] - '0'; if (k < (int)G->prog.pts.size()) { auto& q = G->prog.pts[k]; G->log += 'i'; G->log += q.done ? 'd' : 'r'; if (q.th && !q.done && !q.plain_os) thread_interrupt(q.th, EINTR); } continue; }
         char op = p.ops[i]; char b = p.ops[++i];
         Task* t = new Task; t->id = G->tasks.size(); t->body = b; G->tasks.push_back(t);
         if (op == 'c') {
@@ -65,7 +67,7 @@ void pmc_run(const char* config) {
     int mode = mc == 'n' ? -1 : mc == 't' ? 0 : 2; int ring = config[2] - '0';
     pthread_t joined_thread = 0;
     pmc_window(1);     // generated programs are explorer choices
-    if (st.prog.parse_or_generate(config + 4, {"cn", "cy", "cz", "an", "ay", "az"})) st.log = st.prog.generated + " ";
+    if (st.prog.parse_or_generate(config + 4, {"cn", "cy", "cz", "an", "ay", "az", "i0", "i1"})) st.log = st.prog.generated + " ";
     pmc_window(0);
     st.nworkers = nv;
     pmc_window(0);
@@ -120,6 +122,8 @@ static const PmcConfig CFG[] = {
     {"0T1:az",          3, {2,3}, {0,0}, {0,0}, {0,0}, "only worker is a joined vCPU; async sleeping task vs destruction"},
     {"0P1:ayaz",        3, {1,2}, {0,0}, {0,0}, {0,0}, "joined vCPU, pooled threads"},
     {"1T1:azaz",        3, {1,2}, {0,0}, {0,0}, {0,0}, "owned + joined worker"},
+    {"1t1:cz,i0",       3, {1,2}, {0,0}, {0,0}, {0,0}, "a stray interrupt lands on a caller blocked in call(): call() must still wait for its task"},
+    {"1p1:cy,yi0",      3, {1,1}, {0,0}, {0,0}, {0,0}, ""},
     {"1t1:gen2x2",      3, {0,0}, {0,0}, {0,0}, {0,0}, "generated: 2 submitters x up to 2 tasks from {call,async} x {nop,yield,sleep}, every arrival order, ring of 1"},
     {"1p2:gen3x1",      3, {0,0}, {0,0}, {0,0}, {0,0}, ""},
     {"0T1:gen2x2",      3, {0,0}, {0,0}, {0,0}, {0,0}, "... only worker is a joined vCPU"},
